@@ -217,7 +217,7 @@ Qed.
 (* ---------- same-width paths ---------- *)
 
 (* Utf16::Decode to char16_t: everything is copied except a final first half of a pair *)
-Definition holds_back (u : N) : bool := (0xD800 <=? u) && (u <? 0xDBFF).
+Definition holds_back (u : N) : bool := (0xD800 <=? u) && (u <=? 0xDBFF).
 
 Lemma copy16_spec : forall inp pos out,
   copy16 inp pos out =
@@ -230,7 +230,7 @@ Lemma copy16_spec : forall inp pos out,
 Proof.
   induction inp as [|s t IH]; intros pos out; [reflexivity|].
   cbn [copy16]. destruct t as [|t0 t'].
-  - cbn [rev app length removelast]. unfold holds_back. destruct ((0xD800 <=? s) && (s <? 0xDBFF)).
+  - cbn [rev app length removelast]. unfold holds_back. destruct ((0xD800 <=? s) && (s <=? 0xDBFF)).
     + rewrite app_nil_r. f_equal. lia.
     + f_equal. lia.
   - rewrite IH. cbn [rev]. destruct (rev t' ++ [t0]) as [|l0 l'] eqn:E.
